@@ -6,6 +6,7 @@ package harness
 import (
 	"context"
 	"fmt"
+	"github.com/ipfs/go-unixfsnode/file"
 	"io"
 	"testing"
 
@@ -30,6 +31,53 @@ var c06Ctx = context.Background()
 func c06Access(st *Store, root *tnode, target *tnode, path string, access string) (log []cid.Cid, err error, p any) {
 	ls := st.LinkSystem()
 	p, _ = safe(func() {
+		if access == "NewUnixFSFileWithPreload(reified)" {
+			// the preloading constructor handed a node that is already (lazily) reified
+			rn, e := loadReified(ls, target.Root, "unixfs")
+			if e != nil {
+				err = fmt.Errorf("harness reify of entity root: %w", e)
+				return
+			}
+			st.ResetLogs()
+			_, err = file.NewUnixFSFileWithPreload(c06Ctx, rn, ls)
+			log = st.ReadLog()
+			return
+		}
+		if access == "entity-selector+seeking-consumer" {
+			// the entity walk with a consumer that first asks for the size, rewinds and then copies (what http.ServeContent does)
+			sel, e := selector.CompileSelector(unixfsnode.UnixFSPathSelectorBuilder("", unixfsnode.MatchUnixFSEntitySelector, false))
+			if e != nil {
+				err = e
+				return
+			}
+			pn, e := loadPlain(ls, target.Root)
+			if e != nil {
+				err = e
+				return
+			}
+			st.ResetLogs()
+			prog := traversal.Progress{Cfg: &traversal.Config{Ctx: c06Ctx, LinkSystem: *ls, LinkTargetNodePrototypeChooser: protoChooser}}
+			err = prog.WalkMatching(pn, sel, func(p traversal.Progress, n datamodel.Node) error {
+				lb, ok := n.(datamodel.LargeBytesNode)
+				if !ok {
+					return nil
+				}
+				rs, e := lb.AsLargeBytes()
+				if e != nil {
+					return e
+				}
+				if _, e := rs.Seek(0, io.SeekEnd); e != nil {
+					return e
+				}
+				if _, e := rs.Seek(0, io.SeekStart); e != nil {
+					return e
+				}
+				_, e = io.Copy(io.Discard, rs)
+				return e
+			})
+			log = st.ReadLog()
+			return
+		}
 		if access == "reifier-via-reifying-ls" {
 			// the preload reifier on a link system that itself reifies every node it loads (NodeReifier = Reify): inner file
 			// nodes reach the readers already reified
@@ -254,7 +302,7 @@ func TestC06_P_HandmadeFiles(t *testing.T) {
 	ev := newEvid(t, c06HandRule)
 	rapid.Check(t, func(t *rapid.T) {
 		fc := genHandFileDAG(t, true)
-		access := rapid.SampledFrom([]string{"reifier", "preload-selector", "entity-selector", "entity-walk-of-probed-node", "reifier-via-reifying-ls"}).Draw(t, "access")
+		access := rapid.SampledFrom([]string{"reifier", "preload-selector", "entity-selector", "entity-walk-of-probed-node", "reifier-via-reifying-ls", "NewUnixFSFileWithPreload(reified)", "entity-selector+seeking-consumer"}).Draw(t, "access")
 		target := &tnode{Root: fc.Root, Data: fc.Data, Entity: fc.Tree.PreOrder()}
 		log, err, p := c06Access(fc.St, target, target, "", access)
 		if p != nil {
